@@ -1,5 +1,4 @@
-"""xtuml/meta.py -> lean/Gen/QueryShape.lean  (C09, C16, C11)
-
+"""xtuml/meta.py -> lean/Gen/QueryShape.lean:
 Reads, with `ast` only, the statement structure of the query side of the metamodel and emits it as a small
 first-order IR whose loops are named combinators:
 
